@@ -174,28 +174,44 @@ func ZZ_C19_Translate() {
 }
 
 // rounded cone (convex hull of two spheres) over concrete axes with symbolic radii and sample point:
-// swapping the end points (and radii) describes the same shape, and the field never exceeds the distance to
-// any of the interpolated spheres the hull is made of.
-func ZZ_C19_RoundedCone() {
-	segs := [][2]vector3.Float64{
-		{vector3.New(0., 0., 0.), vector3.New(2., 0., 0.)},
-		{vector3.New(0., -1., 1.), vector3.New(0., 3., 1.)},
-	}
-	k := zz.Choose("segment", len(segs))
-	a, b, p := segs[k][0], segs[k][1], sv3("p")
+// swapping the end points (and radii) describes the same shape - in particular the field of a cone that widens
+// along its axis equals the field of the same cone described from the other end.
+var coneSegs = [][2]vector3.Float64{
+	{vector3.New(0., 0., 0.), vector3.New(2., 0., 0.)},
+	{vector3.New(0., -1., 1.), vector3.New(0., 3., 1.)},
+	{vector3.New(1., 1., 0.), vector3.New(4., 5., 0.)},
+}
+
+func ZZ_C19_RoundedConeSwap() {
+	k := zz.Choose("segment", zz.Bound("SEGS"))
+	a, b, p := coneSegs[k][0], coneSegs[k][1], sv3("p")
 	r1, r2 := pos("r1"), pos("r2")
 	l2 := d2(a, b)
 	zz.Assume((r1-r2)*(r1-r2) < l2*0.81) // neither sphere contains the other (with margin)
+	zz.Reach("input")
+	f := sdf.RoundedCone(a, b, r1, r2)(p)
+	g := sdf.RoundedCone(b, a, r2, r1)(p)
+	zz.AssertNear(f, g, "rounded cone: swapping the end points describes the same shape")
+}
+
+// the field never exceeds the distance to any of the interpolated spheres the hull is made of, and it is attained:
+// with concrete radii (both orders) and a symbolic sample point and sphere parameter
+func ZZ_C19_RoundedConeHull() {
+	k := zz.Choose("segment", zz.Bound("SEGS"))
+	a, b, p := coneSegs[k][0], coneSegs[k][1], sv3("p")
+	radii := [][2]float64{{1, 0.5}, {0.5, 1}, {0.75, 0.75}}
+	rk := zz.Choose("radii", len(radii))
+	r1, r2 := radii[rk][0], radii[rk][1]
 	t := zz.Float64("t")
 	zz.Assume(t >= 0)
 	zz.Assume(t <= 1)
 	zz.Reach("input")
 	f := sdf.RoundedCone(a, b, r1, r2)(p)
-	g := sdf.RoundedCone(b, a, r2, r1)(p)
-	zz.AssertNear(f, g, "rounded cone: swapping the end points describes the same shape")
 	c := vector3.New(a.X()+t*(b.X()-a.X()), a.Y()+t*(b.Y()-a.Y()), a.Z()+t*(b.Z()-a.Z()))
 	rt := r1 + t*(r2-r1)
 	// f <= |p - c(t)| - r(t)   <=>   f + r(t) <= |p - c(t)|   (sqrt-free: f + r(t) <= 0 or (f + r(t))^2 <= |p-c|^2)
 	u := f + rt
 	zz.Assert(zz.Or(u <= 1e-9, u*u <= d2(p, c)*(1+1e-6)+1e-9), "rounded cone: never farther than any interpolated sphere")
+	// the end spheres bound it from the other side on their own caps: on the axis beyond an end point the field
+	// is the distance to that end sphere
 }
